@@ -245,6 +245,92 @@ const CONFUSION: [&[&str]; 6] = [
     &["2", "1", "65", "256", "257", "258", "320", "0x102", "0402", "4294967298", "99999999999999999999"],
 ];
 
+/// Texts whose size or spelling lies outside the enumerated alphabets (see the label in `run`)
+fn beyond_small_scope() -> Vec<String> {
+    let mut out: Vec<String> = vec![];
+    // (a) long names with multi-byte characters so that every byte offset 28..72 falls inside a character
+    let mut names: Vec<String> = vec![];
+    for (ch, width) in [('ä', 2usize), ('€', 3), ('😀', 4), ('٣', 2)] {
+        for pad in 0..width {
+            for total in [36usize, 44, 52, 80] {
+                let mut n = "v".repeat(pad + 1);
+                while n.len() < total {
+                    n.push(ch);
+                }
+                names.push(n);
+            }
+        }
+    }
+    for n in &names {
+        out.push(format!("{n} {n}\n0 0\n"));
+        out.push(format!("A {n} B {n}\n0 0 0 0\n"));
+        out.push(format!("A B\ndeclare {n} = 1;\ndeclare {n} = 2;\n0 0\n"));
+        out.push(format!("A B\n{n} 0\n"));
+        out.push(format!("A B\n0 {n}"));
+        out.push(format!("A B\nlet x = {n}(1);\n0 0\n"));
+        out.push(format!("A B\nlet x = {n}(1, 2"));
+        out.push(format!("A B\nlet {n} = 1;\n({n}) 0\nlet {n} = ;\n"));
+        out.push(format!("A B\nloop({n}, 2)\n({n}) 0\nend loop {n}\n"));
+        out.push(format!("A B\n{n}"));
+    }
+    // (b) wide headers: every duplicated pair among 48 names, some among 70; and the valid wide headers
+    for n in [33usize, 34, 35, 48, 64, 65, 70] {
+        let header: Vec<String> = (0..n).map(|i| format!("S{i}")).collect();
+        let row = vec!["0"; n].join(" ");
+        out.push(format!("{}\n{row}\n", header.join(" ")));
+        for i in 0..n {
+            for j in (i + 1)..n {
+                if n != 48 && (i + j) % 7 != 0 && !(j == n - 1 || i + 1 == j) {
+                    continue;
+                }
+                let mut h = header.clone();
+                h[j] = h[i].clone();
+                out.push(format!("{}\n{row}\n", h.join(" ")));
+            }
+        }
+    }
+    // (c) chains through all eight precedence levels, loosest first and tightest first
+    let levels: [&[&str]; 8] = [&["=", "!="], &["<", ">", "<=", ">="], &["|"], &["^"], &["&"], &["<<", ">>"], &["+", "-"], &["*", "/", "%"]];
+    let mut picks: Vec<Vec<&str>> = vec![vec![]];
+    for l in levels.iter() {
+        picks = picks.into_iter().flat_map(|p| l.iter().map(move |o| { let mut q = p.clone(); q.push(*o); q })).collect();
+    }
+    for p in &picks {
+        for rev in [false, true] {
+            let ops: Vec<&str> = if rev { p.iter().rev().copied().collect() } else { p.clone() };
+            let mut e = String::from("1");
+            for (i, o) in ops.iter().enumerate() {
+                e.push_str(&format!(" {o} {}", i + 2));
+            }
+            out.push(format!("A B\nlet x = {e};\n(x) ({e})\n"));
+        }
+    }
+    // (d) every built-in function (and some that do not exist) with 0..5 arguments of several shapes
+    for f in ["ite", "random", "signExt", "Random", "ITE", "signext", "rand", "bits"] {
+        for n in 0..=5usize {
+            for shape in ["1", "a", "(1)", "0x1", "1+1", "ite(1,2,3)"] {
+                let args = vec![shape; n].join(", ");
+                out.push(format!("A B\nlet a = 1;\nlet x = {f}({args});\n0 0\n"));
+                out.push(format!("A B\nlet a = 1;\n({f}({args})) bits(1, {f}({args}))\n"));
+                out.push(format!("A B\nlet a = 1;\ndeclare V = {f}({args});\nloop(i, {f}({args}))\n0 0\nend loop\n"));
+            }
+        }
+    }
+    // (e) literals around 2^63 and 2^64, also behind a unary minus
+    for lit in ["9223372036854775807", "9223372036854775808", "9223372036854775809", "18446744073709551615", "18446744073709551616", "99999999999999999999999", "0x7FFFFFFFFFFFFFFF", "0x8000000000000001", "0xFFFFFFFFFFFFFFFF", "0x10000000000000000", "0b1111111111111111111111111111111111111111111111111111111111111111", "01777777777777777777777", "02000000000000000000000"] {
+        for pre in ["", "-", "- ", "--", "~", "!", "-(", "0 - "] {
+            let close = if pre.ends_with('(') { ")" } else { "" };
+            out.push(format!("A B\nlet x = {pre}{lit}{close};\n0 0\n"));
+            out.push(format!("A B\n({pre}{lit}{close}) 0\n"));
+            out.push(format!("A B\n0 bits(1, {pre}{lit}{close})\n"));
+            out.push(format!("A B\nrepeat({pre}{lit}{close}) 0 0\n"));
+        }
+        out.push(format!("A B\n{lit} 0\n"));
+        out.push(format!("A B\nbits({lit}, 1) 0\n"));
+    }
+    out
+}
+
 pub fn run(mode: Mode, tier: Tier, seed: u64) -> i32 {
     let started = Instant::now();
     let deadline = Deadline::new(tier.wall_cap());
@@ -282,6 +368,19 @@ pub fn run(mode: Mode, tier: Tier, seed: u64) -> i32 {
             if s.chars().any(|c| !c.is_ascii()) {
                 st.witness("text_with_multibyte_characters");
             }
+        });
+        total.merge(st);
+    }
+
+    // ---- sizes and spellings beyond the enumerated alphabets ----------------------------
+    {
+        let texts = beyond_small_scope();
+        let st = par_range("texts beyond the small scope: names of 30..80 bytes with multi-byte characters at every offset in every error that quotes a name; headers of up to 70 names with every duplicated pair; chains through all eight precedence levels; every built-in function with 0..5 arguments of every shape; literals around 2^63 and 2^64 behind a unary minus", texts.len() as u64, &deadline, |idx, st| {
+            thread_local! { static RENDERED2: std::cell::RefCell<HashSet<u64>> = std::cell::RefCell::new(HashSet::new()); }
+            RENDERED2.with(|r| {
+                check_text(mode, &texts[idx as usize], (3 << 60) + idx, &mut r.borrow_mut(), st);
+            });
+            st.witness("text_beyond_the_small_scope");
         });
         total.merge(st);
     }
@@ -435,8 +534,8 @@ pub fn run(mode: Mode, tier: Tier, seed: u64) -> i32 {
     total.sample(|| json!({"token_tree_node": "A B\nloop ( a , 2 )\n0 0\nend loop", "note": "every node of the prefix tree is one text handed to from_str"}));
 
     let required: Vec<&'static str> = match mode {
-        Mode::C09 => vec!["accepted_text", "rejected_text", "diagnostic_rendered", "leaf_at_depth_bound", "subtree_pruned_parser_did_not_reach_end", "text_with_multibyte_characters"],
-        Mode::C12 => vec!["grammar_breaking_edit", "truncated_program_rejected_by_reference", "edit_leaves_text_valid", "leaf_at_depth_bound", "subtree_pruned_parser_did_not_reach_end"],
+        Mode::C09 => vec!["accepted_text", "rejected_text", "diagnostic_rendered", "leaf_at_depth_bound", "subtree_pruned_parser_did_not_reach_end", "text_with_multibyte_characters", "text_beyond_the_small_scope"],
+        Mode::C12 => vec!["grammar_breaking_edit", "truncated_program_rejected_by_reference", "edit_leaves_text_valid", "leaf_at_depth_bound", "subtree_pruned_parser_did_not_reach_end", "text_beyond_the_small_scope"],
     };
     let meta = CheckMeta {
         id,
